@@ -343,6 +343,66 @@ theorem stft_coefficient_spec (D start len : Nat) (hD : 0 < D) (hlen : len ≤ D
     (by cases p <;> simp [entry])
   simpa [Function.comp_def] using this
 
+/-- a bin where the rebuilt response is non-zero carries one of the taps -/
+theorem rebuilt_ne_zero {T : Type} [Zero T] (D start len : Nat) (tap : Nat → T) (b : Nat)
+    (h : rebuilt D start len tap b ≠ 0) : ∃ j, j < len ∧ (start + j) % D = b := by
+  unfold rebuilt at h
+  cases hf : (List.range len).find? (fun j => (start + j) % D = b) with
+  | none => rw [hf] at h; exact absurd rfl h
+  | some j =>
+    have hj := List.find?_some hf
+    simp only [decide_eq_true_eq] at hj
+    exact ⟨j, List.mem_range.mp (List.mem_of_find?_eq_some hf), hj⟩
+
+open PdsVerif.Dft PdsVerif.FrameCoeffTie in
+/-- **real banks: twice the half-spectrum sum IS the full-spectrum sum of the Hermitian response.**  For a real
+bank whose taps avoid DC and the Nyquist bin (`0 < start`, `2·(start+len−1) < D`), the documented recipe also puts
+`conj(tap j)` on the mirrored bin `D − (start + j)`; that mirrored placement is `rebuilt D (D−(start+len−1)) len` of the
+reversed, conjugated taps.  For a real frame the full-spectrum sum over the complete (Hermitian) response equals twice
+the sum over the half-spectrum part — the factor 2 of `stft_coefficient_spec`. -/
+theorem real_full_spectrum_eq_twice_half (D start len : Nat) (hdc : 0 < start) (hny : 2 * (start + len - 1) < D)
+    (hlen0 : 0 < len) (x : Nat → ℂ) (hx : ∀ n, (starRingEnd ℂ) (x n) = x n) (tap : Nat → ℂ) (p : Bool) :
+    ∑ b ∈ Finset.range D, entry p ‖dft D x (b : ℤ) *
+        (rebuilt D start len tap b
+          + rebuilt D (D - (start + len - 1)) len (fun i => (starRingEnd ℂ) (tap (len - 1 - i))) b)‖
+      = 2 * ∑ b ∈ Finset.range D, entry p ‖dft D x (b : ℤ) * rebuilt D start len tap b‖ := by
+  have hD : 0 < D := by omega
+  have hlen : len ≤ D := by omega
+  set tap2 : Nat → ℂ := fun i => (starRingEnd ℂ) (tap (len - 1 - i)) with htap2
+  set s2 := D - (start + len - 1) with hs2
+  let ψ : Nat → ℂ → ℝ := fun b t => entry p ‖dft D x (b : ℤ) * t‖
+  have hψ0 : ∀ b, ψ b 0 = 0 := by intro b; cases p <;> simp [ψ, entry]
+  -- disjoint supports: pointwise additivity
+  have hadd : ∀ b ∈ Finset.range D, ψ b (rebuilt D start len tap b + rebuilt D s2 len tap2 b)
+      = ψ b (rebuilt D start len tap b) + ψ b (rebuilt D s2 len tap2 b) := by
+    intro b _
+    by_cases h1 : rebuilt D start len tap b = 0
+    · rw [h1, zero_add, hψ0, zero_add]
+    · have h2 : rebuilt D s2 len tap2 b = 0 := by
+        by_contra h2
+        obtain ⟨j, hj, hjb⟩ := rebuilt_ne_zero D start len tap b h1
+        obtain ⟨i, hi, hib⟩ := rebuilt_ne_zero D s2 len tap2 b h2
+        rw [Nat.mod_eq_of_lt (by omega)] at hjb hib
+        omega
+      rw [h2, add_zero, hψ0, add_zero]
+  -- the mirrored part sums to the same value
+  have hmir : ∑ b ∈ Finset.range D, ψ b (rebuilt D s2 len tap2 b)
+      = ∑ b ∈ Finset.range D, ψ b (rebuilt D start len tap b) := by
+    rw [full_spectrum_sum D s2 len hD hlen tap2 ψ hψ0, full_spectrum_sum D start len hD hlen tap ψ hψ0]
+    rw [← Finset.sum_range_reflect (fun j => ψ ((start + j) % D) (tap j)) len]
+    apply Finset.sum_congr rfl
+    intro i hi
+    have hil := Finset.mem_range.mp hi
+    have e1 : (s2 + i) % D = D - (start + (len - 1 - i)) := by
+      rw [Nat.mod_eq_of_lt (by omega)]; omega
+    have e2 : (start + (len - 1 - i)) % D = start + (len - 1 - i) := Nat.mod_eq_of_lt (by omega)
+    simp only [ψ, htap2]
+    rw [e1, e2, dft_mirror_nat D (by omega) x hx (start + (len - 1 - i)) (by omega), ← map_mul,
+      Complex.norm_conj]
+  show ∑ b ∈ Finset.range D, ψ b (rebuilt D start len tap b + rebuilt D s2 len tap2 b) = _
+  rw [Finset.sum_congr rfl hadd, Finset.sum_add_distrib, hmir]
+  ring
+
 /-! non-vacuity -/
 example : Walk.run 8 6 5 = Walk.spec 8 6 5 ∧ (Walk.run 8 6 5).length = 5 := by decide
 example : Walk.run 3 0 3 = [⟨0, false, 0⟩, ⟨1, false, 1⟩, ⟨1, true, 2⟩] := by decide
